@@ -65,14 +65,18 @@ ASSUMPTIONS = [
     "management operations answering 5xx (duplicate stream directory: IntegrityError) are modelled as refusals that "
     "leave the store unchanged; the property's 5xx clause is about manifests of listed streams",
     "manifests requested: hand_made.mpd in vod and live mode with default options, and vod with drm=all",
+    "ownership used by the deletion oracle: Stream owns its media files and the Periods that play it, MediaFile owns "
+    "its blob, key links and error rows, Key owns its links only, MultiPeriodStream owns its Periods, Period its "
+    "AdaptationSets; deleting a media file may clear the timing reference of its stream (0b30ad8), nothing else changes",
 ]
 
 DIRS = ["alpha", "bravo", "charlie"]
 TITLES = ["Title_one", "Title_two", "T3"]
 STEMS = ["va", "vb", "aa", "ea", "tx", "va_01", "vb_01"]
 SUFFIXES = [".mp4", ".mp4", ".mp4", ".m4v"]
-KIND_WEIGHTS = [("v1", 3), ("v2", 2), ("v9", 1), ("a1", 2), ("ev", 1.5), ("ea", 1), ("vz", 1), ("s1", .5),
-                ("jk", .5), ("em", .15), ("ft", .7), ("fa", .25), ("fv", .15), ("fe", .25)]
+KIND_WEIGHTS = [("v1", 3), ("v2", 2), ("v9", 1), ("a1", 2), ("ev", 1.5), ("e2", 1), ("eb", 1), ("ea", 1), ("vz", 1),
+                ("s1", .5), ("jk", .5), ("em", .15), ("ft", .7), ("fa", .25), ("fv", .15), ("fe", .25)]
+SHARED_KID_KINDS = ["ev", "e2", "eb"]          # encrypted payloads that use one and the same key id
 KIDS = ["1ab45440532c439994dc5c5ad9584bac", "0f1e2d3c4b5a69788796a5b4c3d2e1f0", "aa" * 16]
 MPS_NAMES = ["mpsone", "mpstwo", "mp"]
 MPS_TITLES = ["MPS_one", "MPS_two", "M2"]
@@ -177,6 +181,38 @@ def progress_op(rng, rows):
     return None
 
 
+def shared_key_op(rng, rows):
+    """build, then disturb, a layout in which encrypted media files share an encryption key"""
+    streams, files, links = rows["streams"], rows["files"], rows["links"]
+    by_key: dict = {}
+    for m, k in links:
+        by_key.setdefault(k, []).append(m)
+    shared = [ms for ms in by_key.values() if len(ms) >= 2]
+    fmap = {f["pk"]: f for f in files}
+    if shared and rng.random() < .6:
+        f = fmap.get(rng.choice(rng.choice(shared)))
+        if f is not None:
+            r = rng.random()
+            if r < .5:
+                return ("dm", pick_url_stream(rng, streams, f), f["pk"], rng.randrange(2))
+            if r < .75:       # replaced by an upload of the same name into its own stream
+                return ("up", f["stream"], f["name"], ".mp4", rng.choice(["v1", "a1", "ev", "ea"]))
+            return ("ds", f["stream"], rng.randrange(2))
+    pending = [f for f in files if not f["indexed"] and f["ctype"] in ("video/mp4", "audio/mp4")]
+    if pending and rng.random() < .7:
+        return ("ix", rng.choice(pending)["pk"])
+    enc_streams = [f["stream"] for f in files if f["enc"]]
+    if enc_streams and rng.random() < .6:
+        spk = rng.choice(enc_streams)                      # same stream: one more representation
+    else:
+        spk = rng.choice(streams)["pk"]                    # any stream: the key is shared across streams
+    used = {f["name"] for f in files}
+    free = [x for x in STEMS + ["eb", "ec", "ed"] if x not in used]
+    if not free:
+        return None
+    return ("up", spk, rng.choice(free), ".mp4", rng.choice(SHARED_KID_KINDS))
+
+
 def pick_url_stream(rng, streams, f):
     """the <spk> of a route that takes both a stream and a media file id (/stream/<spk>/<mfid>…): the file's
     own stream, ANOTHER existing stream (media file ids are global, the handlers accept the mismatched pair),
@@ -206,6 +242,12 @@ def gen_op(rng, rows):
             if rng.random() < .7:
                 return ("dm", other, f["pk"], rng.randrange(2))
             return ("em", other, f["pk"], rng.choice(TRACKS))
+    # shared-key layouts: several encrypted files of one stream, and of different streams, that use the same key
+    # (uploaded and indexed through the API - indexing is what creates the links); then one of them goes
+    if streams and rng.random() < .16:
+        op = shared_key_op(rng, rows)
+        if op is not None:
+            return op
     if rng.random() < .5:
         op = progress_op(rng, rows)
         if op is not None:
@@ -306,12 +348,35 @@ def url_stream_kind(state: str, spk: int, mfid: int) -> str:
     return "owner" if owner[mfid] == spk else "other_existing"
 
 
+def shared_key_files(state: str) -> int:
+    """number of key links that belong to a key linked to at least two media files"""
+    m = re.search(r"L\[(.*?)\]", state)
+    pairs = [x.split(".") for x in m.group(1).split("|") if x] if m else []
+    n: dict = {}
+    for _, k in pairs:
+        n[k] = n.get(k, 0) + 1
+    return sum(v for v in n.values() if v >= 2)
+
+
 def fkey(msg: str) -> str:
     """class of an oracle failure: the message without numbers and names"""
-    m = re.sub(r"'[^']*'", "'…'", msg)
+    m = re.sub(r"\{[^}]*\}", "{…}", msg)
+    m = re.sub(r"'[^']*'", "'…'", m)
     m = re.sub(r"/(dash|mps)/(vod|live|odvod)/[^/ ]+/[^ ]+", r"/\1/\2/…", m)
     m = re.sub(r"\d+", "N", m)
     return re.sub(r"(media file|stream|period|timing reference) [\w.]+", r"\1 …", m)
+
+
+def step_failures(w, before, status_before, op, res, rows, canon_changed):
+    """the whole Layer-C oracle for one step: consistency of the state reached, what the deletion removed,
+    service of everything listed, what the deletion changed for the others.  Returns (messages, manifest statuses)"""
+    fails = w.inv_failures(rows) + w.deletion_failures(before, op, res, rows)
+    status = status_before
+    if canon_changed:
+        fails += w.service_failures(rows)
+        status = w.last_status
+        fails += w.preservation_failures(before, status_before, op, res, rows, status)
+    return fails, status
 
 
 def run_history(w, ops, gen=None, oracle=True):
@@ -321,10 +386,12 @@ def run_history(w, ops, gen=None, oracle=True):
     w.reset()
     out = {"ops": [], "real": [], "status": [], "failures": []}
     rows = w.rows()
-    prev = None
+    prev = w.canonical(rows)
+    mstatus: dict = {}
     n = len(ops) if ops is not None else gen[1]
     for i in range(n):
         op = ops[i] if ops is not None else gen_op(gen[0], rows)
+        before = rows
         res, st = w.apply(op)
         rows = w.rows()
         canon = w.canonical(rows)
@@ -332,9 +399,7 @@ def run_history(w, ops, gen=None, oracle=True):
         out["real"].append(res + "|" + canon)
         out["status"].append(st)
         if oracle:
-            fails = w.inv_failures(rows)
-            if canon != prev:
-                fails += w.service_failures(rows)
+            fails, mstatus = step_failures(w, before, mstatus, op, res, rows, canon != prev)
             if fails:
                 out["failures"].append((i, fails))
         prev = canon
@@ -352,12 +417,17 @@ def first_failure(w, ops, key=None):
 
 
 def fails_at_end(w, ops, key):
-    """run the history without the oracle, then evaluate the oracle on the final state only"""
+    """run the history without the oracle, then evaluate the oracle on the last step only"""
     w.reset()
-    for op in ops:
+    for op in ops[:-1]:
         w.apply(op)
+    before = w.rows()
+    w.service_failures(before)
+    status_before = w.last_status
+    res, _ = w.apply(ops[-1])
     rows = w.rows()
-    for m in w.inv_failures(rows) + w.service_failures(rows):
+    fails, _ = step_failures(w, before, status_before, ops[-1], res, rows, True)
+    for m in fails:
         if fkey(m) == key:
             return m
     return None
@@ -438,6 +508,14 @@ def evaluate(w, histories, ch: Channel, t_deadline=None):
         final = h["real"][-1] if h["real"] else ""
         if "P[]" not in final:
             ch.count("final_state_has_periods")
+        if any(shared_key_files(r.split("|", 1)[1]) for r in h["real"]):
+            ch.count("history_reaches_shared_key_layout")
+        prev_state = ""
+        for o, r in zip(h["ops"], h["real"]):
+            if r.startswith("ok|") and o[0] in ("dm", "ds", "up") and shared_key_files(prev_state) > \
+                    shared_key_files(r.split("|", 1)[1]):
+                ch.count(f"{o[0]}_removes_file_that_shared_a_key")
+            prev_state = r.split("|", 1)[1]
         if oks >= 4 and len(kinds) >= 3:
             ch.nontrivial.add(tuple(h["real"]))
         if mo is not None:
@@ -503,17 +581,61 @@ def channels(ctx):
     yield ch
 
 
+def disagrees(w, ops):
+    """index of the first step at which the real application and the Lean model differ, or None"""
+    h = run_history(w, ops, oracle=False)
+    try:
+        mo = model_run(w, [h])[0]
+    except Exception:
+        return None
+    if len(mo) != len(h["real"]):
+        return 0
+    for i, (a, b) in enumerate(zip(h["real"], mo)):
+        if a != b:
+            return i
+    return None
+
+
+def shrink_disagreement(w, ops, budget_s=25.0):
+    """delta debugging: the shortest history we can find on which model and implementation still differ"""
+    t0 = time.time()
+    i = disagrees(w, ops)
+    if i is None:
+        return list(ops)
+    ops = list(ops[:i + 1])
+    chunk = max(1, len(ops) // 2)
+    while chunk >= 1 and time.time() - t0 < budget_s:
+        j, removed = 0, False
+        while j < len(ops) and time.time() - t0 < budget_s:
+            cand = ops[:j] + ops[j + chunk:]
+            k = disagrees(w, cand) if cand else None
+            if k is not None:
+                ops, removed = cand[:k + 1], True
+            else:
+                j += chunk
+        if chunk == 1 and not removed:
+            break
+        chunk = chunk // 2 if chunk > 1 else (1 if removed else 0)
+    return ops
+
+
 def search(ctx, disagreements):
-    """Layer C: look for a history on which the real application violates C17"""
+    """Layer C: look for a history on which the real application violates C17.  Starts from the histories on
+    which model and implementation disagreed (each minimised first, then judged by the oracle step by step),
+    then widens to fresh random histories"""
     w = _w()
     rng = ctx.rng("search")
     seeds = [ops_from_json(d["history"]) for d in disagreements if "history" in d]
     t0 = time.time()
     budget = 60 if not ctx.thorough else 300
-    for ops in seeds:
+    for ops in seeds[:6]:
         f = first_failure(w, ops)
         if f:
             return failure_record(w, ops, fkey(f[1]), f[1])
+        mini = shrink_disagreement(w, ops)
+        f = first_failure(w, mini)
+        if f:
+            return failure_record(w, mini, fkey(f[1]), f[1])
     while time.time() - t0 < budget:
         h = run_history(w, None, gen=(rng, 14))
         for i, msgs in h["failures"]:
